@@ -8,6 +8,10 @@ Tie:      `pre`   function level: md5(model pre-image) == tokenize(...) on gener
           `trip`  determinism: deep copy, pickle round trip, rebuilt equal value
           `fresh` determinism in fresh interpreters with other hash seeds
           `opq`   oracle only: pandas objects, dataclasses, partials, callables, memmaps (not modelled)
+          `cat`   oracle only: a catalogue of further classes (numpy scalars / dtypes / ufuncs, bound methods, builtins,
+                  Compose / curry / partial, literal, OrderedDict, MappingProxyType, frozenset, types, range, UUID,
+                  pandas scalars / offsets / extension arrays / dtypes, recursive containers, masked / record / object /
+                  string / datetime arrays): equal <=> same token, stable under deepcopy / pickle
 """
 from __future__ import annotations
 
@@ -320,6 +324,118 @@ def _opq_eq(sa, sb, a, b):
     return sa == sb   # func / lambda: equal iff same construction
 
 
+# catalogue of further value classes (oracle only): source expression -> equality key; two entries denote observably
+# equal values iff their keys are equal. Every expression is evaluated afresh for each use.
+CATALOG = [
+    ("np.int64(5)", "np.int64:5"), ("np.int32(5)", "np.int32:5"), ("np.int64(6)", "np.int64:6"), ("np.float64(5)", "np.float64:5"),
+    ("np.int64(2) + np.int64(3)", "np.int64:5"), ("np.bool_(True)", "np.bool:1"), ("np.float32(1.5)", "np.float32:1.5"),
+    ("np.dtype('i8')", "dtype:<i8"), ("np.dtype('int64')", "dtype:<i8"), ("np.dtype('>i8')", "dtype:>i8"), ("np.dtype('f8')", "dtype:<f8"),
+    ("np.dtype([('a', 'i4'), ('b', 'f8')])", "dtype:struct-ab"), ("np.dtype([('a', 'i4'), ('c', 'f8')])", "dtype:struct-ac"),
+    ("np.sin", "ufunc:sin"), ("np.cos", "ufunc:cos"), ("np.add", "ufunc:add"),
+    ("[1, 2].append", "bm:list12.append"), ("[1, 2].pop", "bm:list12.pop"), ("[1, 3].append", "bm:list13.append"),
+    ("'abc'.upper", "bm:abc.upper"), ("'abd'.upper", "bm:abd.upper"), ("'abc'.lower", "bm:abc.lower"),
+    ("len", "builtin:len"), ("sum", "builtin:sum"), ("operator.add", "builtin:operator.add"), ("operator.sub", "builtin:operator.sub"),
+    ("toolz.compose(len, str)", "compose:len,str"), ("toolz.compose(str, len)", "compose:str,len"), ("toolz.compose(len, repr)", "compose:len,repr"),
+    ("toolz.curry(operator.add, 1)", "curry:add,1"), ("toolz.curry(operator.add, 2)", "curry:add,2"), ("toolz.curry(operator.sub, 1)", "curry:sub,1"),
+    ("functools.partial(operator.add, 1)", "partial:add,1"), ("functools.partial(operator.add, 1, 2)", "partial:add,1,2"),
+    ("dask.core.literal((1, 2))", "literal:(1,2)"), ("dask.core.literal((2, 1))", "literal:(2,1)"), ("dask.core.literal([1, 2])", "literal:[1,2]"),
+    ("collections.OrderedDict([('a', 1), ('b', 2)])", "od:a1b2"), ("collections.OrderedDict([('b', 2), ('a', 1)])", "od:b2a1"),
+    ("collections.OrderedDict([('a', 1), ('b', 3)])", "od:a1b3"), ("{'a': 1, 'b': 2}", "dict:a1b2"), ("{'b': 2, 'a': 1}", "dict:a1b2"),
+    # a mappingproxy is a read-only view that compares == to the dict it wraps; dask registers both for one normaliser
+    # on purpose (class __dict__s): same items <=> same token, for either class
+    ("types.MappingProxyType({'a': 1, 'b': 2})", "dict:a1b2"), ("types.MappingProxyType({'b': 2, 'a': 1})", "dict:a1b2"),
+    ("types.MappingProxyType({'a': 1})", "dict:a1"),
+    ("frozenset([1, 2])", "fs:12"), ("frozenset([2, 1])", "fs:12"), ("frozenset([1, 3])", "fs:13"), ("{1, 2}", "set:12"),
+    ("int", "type:int"), ("float", "type:float"), ("list", "type:list"), ("dict", "type:dict"),
+    ("range(3)", "range:0,3,1"), ("range(0, 3)", "range:0,3,1"), ("range(0, 3, 2)", "range:0,3,2"), ("range(4)", "range:0,4,1"),
+    ("uuid.UUID(int=5)", "uuid:5"), ("uuid.UUID(int=6)", "uuid:6"),
+    ("pd.Timestamp('2000-01-01')", "ts:2000-01-01"), ("pd.Timestamp('2000-01-02')", "ts:2000-01-02"),
+    ("pd.Timestamp('2000-01-01', tz='UTC')", "ts:2000-01-01utc"), ("pd.Timedelta('1D')", "td:1d"), ("pd.Timedelta('2D')", "td:2d"),
+    ("pd.NA", "pd.NA"), ("pd.NaT", "pd.NaT"), ("pd.offsets.Day(1)", "off:D1"), ("pd.offsets.Day(2)", "off:D2"), ("pd.offsets.Hour(1)", "off:H1"),
+    ("pd.Interval(0, 1)", "iv:0,1,right"), ("pd.Interval(0, 1, closed='left')", "iv:0,1,left"), ("pd.Interval(0, 2)", "iv:0,2,right"),
+    ("pd.Period('2000-01', 'M')", "per:2000-01M"), ("pd.Period('2000-02', 'M')", "per:2000-02M"),
+    ("pd.array([1, 2, None], dtype='Int64')", "arr:Int64:1,2,NA"), ("pd.array([1, 2, 3], dtype='Int64')", "arr:Int64:1,2,3"),
+    ("pd.array([1, 2, None], dtype='Float64')", "arr:Float64:1,2,NA"),
+    ("pd.arrays.IntervalArray.from_breaks([0, 1, 2])", "iva:012r"), ("pd.arrays.IntervalArray.from_breaks([0, 1, 2], closed='left')", "iva:012l"),
+    ("pd.arrays.IntervalArray.from_breaks([0, 1, 3])", "iva:013r"),
+    ("pd.period_range('2000-01', periods=3, freq='M').array", "pa:2000-01x3M"), ("pd.period_range('2000-01', periods=3, freq='D').array", "pa:2000-01x3D"),
+    ("pd.date_range('2000-01-01', periods=3).array", "dta:2000x3"), ("pd.date_range('2000-01-01', periods=3, tz='UTC').array", "dta:2000x3utc"),
+    ("pd.date_range('2000-01-02', periods=3).array", "dta:2000-2x3"), ("pd.timedelta_range('1D', periods=3).array", "tda:1dx3"),
+    ("pd.timedelta_range('2D', periods=3).array", "tda:2dx3"),
+    ("pd.CategoricalDtype(['a', 'b'])", "cdt:ab-u"), ("pd.CategoricalDtype(['a', 'b'], ordered=True)", "cdt:ab-o"),
+    ("pd.CategoricalDtype(['b', 'a'])", "cdt:ba-u"),
+    ("_rec_list(1)", "rec:list1"), ("_rec_list(2)", "rec:list2"), ("_rec_dict(1)", "rec:dict1"), ("_rec_dict(2)", "rec:dict2"),
+    ("_rec_tuple_list(1)", "rec:tl1"),
+    ("np.ma.masked_array([1, 2, 3], mask=[0, 1, 0])", "ma:123:010"), ("np.ma.masked_array([1, 2, 3], mask=[0, 0, 1])", "ma:123:001"),
+    ("np.ma.masked_array([1, 9, 3], mask=[0, 1, 0])", "ma:193:010"),
+    ("np.array([1, 'a', None], dtype=object)", "obj:1,a,None"), ("np.array([1, 'a', 0], dtype=object)", "obj:1,a,0"),
+    ("np.array([b'a-b', b'c'], dtype=object)", "objb:a-b,c"), ("np.array([b'a', b'b-c'], dtype=object)", "objb:a,b-c"),
+    ("np.array(['ab', 'c'])", "U:ab,c"), ("np.array(['a', 'bc'])", "U:a,bc"), ("np.array([b'ab', b'c'])", "S:ab,c"),
+    ("np.array(['2000-01-01', '2000-01-02'], dtype='M8[D]')", "M8D:1,2"), ("np.array(['2000-01-01', '2000-01-02'], dtype='M8[ns]')", "M8ns:1,2"),
+    ("np.rec.fromarrays([[1, 2], [3., 4.]], names='a,b')", "rec:ab"), ("np.rec.fromarrays([[1, 2], [3., 4.]], names='a,c')", "rec:ac"),
+]
+_CATKEY = dict(CATALOG)
+
+
+def _rec_list(k):
+    x = [k]
+    x.append(x)
+    return x
+
+
+def _rec_dict(k):
+    d = {"k": k}
+    d["self"] = d
+    return d
+
+
+def _rec_tuple_list(k):
+    x = [k]
+    t = (x, k)
+    x.append(t)
+    return t
+
+
+def _cat_value(src):
+    import collections
+    import functools
+    import operator
+    import types
+    import uuid
+    import numpy as np
+    import pandas as pd
+    import dask
+    import tlz as toolz
+    ns = dict(np=np, pd=pd, dask=dask, toolz=toolz, operator=operator, functools=functools, collections=collections,
+              types=types, uuid=uuid, _rec_list=_rec_list, _rec_dict=_rec_dict, _rec_tuple_list=_rec_tuple_list)
+    return eval(src, ns)
+
+
+def case_cat(ctx, inp):
+    """oracle only: a pair of catalogue entries (built afresh): equal keys <=> equal tokens; stable under copy / pickle"""
+    sa, sb = inp["a"], inp["b"]
+    a, b = _cat_value(sa), _cat_value(sb)
+    ta, tb = _tokenize(a), _tokenize(b)
+    same = _CATKEY[sa] == _CATKEY[sb]
+    fam = _CATKEY[sa].split(":")[0]
+    ctx.branch(("equal:" if same else "differ:") + "cat-" + fam)
+    if same and ta != tb:
+        ctx.fail("equal values get different tokens", sig=f"nondet:catalog:{fam}", observed=[sa, sb, ta, tb])
+    if not same and ta == tb:
+        ctx.fail("observably different values get the same token (collision)", sig=f"collision:catalog:{fam}", observed=[sa, sb, ta])
+    if _tokenize(a) != ta:
+        ctx.fail("token changes when asked again", sig=f"nondet-again:catalog:{fam}", observed=sa)
+    if not fam.startswith(("rec", "bm")):
+        for name, mk in (("deepcopy", copy.deepcopy), ("pickle", lambda v: pickle.loads(pickle.dumps(v)))):
+            try:
+                w = mk(a)
+            except Exception:
+                ctx.note("cat-copy-failed")
+                continue
+            if _tokenize(w) != ta:
+                ctx.fail(f"token changes after {name}", sig=f"nondet-{name}:catalog:{fam}", observed=sa)
+
+
 def case_opq(ctx, inp):
     sa, sb = inp["a"], inp["b"]
     a, b = _build_opq(sa), _build_opq(sb)
@@ -344,7 +460,7 @@ def case_opq(ctx, inp):
             ctx.fail(f"token changes after {name}", sig=f"nondet-{name}:{sa[0]}", observed=[ta, _tokenize(w)])
 
 
-CASES = {"pre": case_pre, "pair": case_pair, "trip": case_trip, "fresh": case_fresh, "opq": case_opq}
+CASES = {"pre": case_pre, "pair": case_pair, "trip": case_trip, "fresh": case_fresh, "opq": case_opq, "cat": case_cat}
 
 
 # ----------------------------------------------------------------------------------------------
@@ -489,6 +605,19 @@ def generate(ctx):
     for _ in range(ctx.n(150, 1500)):
         a, b, label = _opq_specs(rng)
         yield "opq", {"a": a, "b": b, "label": label}
+    # catalogue: every entry against itself (built twice) and against the entries of its family; random cross pairs
+    srcs = [s for s, _ in CATALOG]
+    fams = {}
+    for s_, k_ in CATALOG:
+        fams.setdefault(k_.split(":")[0], []).append(s_)
+    for s_ in srcs:
+        yield "cat", {"a": s_, "b": s_}
+    for fam, members in fams.items():
+        for i in range(len(members)):
+            for j in range(i):
+                yield "cat", {"a": members[i], "b": members[j]}
+    for _ in range(ctx.n(60, 1500)):
+        yield "cat", {"a": rng.choice(srcs), "b": rng.choice(srcs)}
     nseeds = 2 if not ctx.thorough() else 8
     batch = [U.gen_value(rng) for _ in range(ctx.n(120, 600))] + [a for a, _, _ in EXPLICIT_PAIRS] + [b for _, b, _ in EXPLICIT_PAIRS]
     yield "fresh", {"vals": batch, "seeds": [rng.randint(1, 10 ** 6) for _ in range(nseeds)]}
